@@ -601,6 +601,15 @@ def gen_history(rng, flavour, nsteps, p_remove=0.12):
                         if rng.random() < 0.33 and v.parent_cp(x) and v.iface_path(v.parent_cp(x)[0]):
                             pending.append(['mark', ['if', v.iface_path(v.parent_cp(x)[0])], 'Failed'])
                         return ['mark', ['if', v.iface_path(x)], 'Failed']
+                    facs = [x for x in v.n if v.cls(x) == 'NetworkNode' and v.typ(x) == 'Facility']
+                    if facs and rng.random() < 0.2:
+                        # a facility node (alone, or - one time in three - together with one of its ports)
+                        x = rng.choice(sorted(facs))
+                        ps = [p for p in sorted(v.n) if v.cls(p) == 'ConnectionPoint' and v.iface_path(p)
+                              and v.iface_path(p)[0] == 'n' and v.iface_path(p)[1] == v.name(x)]
+                        if ps and rng.random() < 0.33:
+                            pending.append(['mark', ['if', v.iface_path(rng.choice(ps))], 'Failed'])
+                        return ['mark', ['node', v.name(x)], 'Failed']
                     i = rng.choice(sorted(v.n))
                     c = v.cls(i)
                     if c == 'NetworkNode':
